@@ -381,7 +381,7 @@ func (w *cbWorld) do(st cbStep) bool {
 		chunks := w.pair.connB.take()
 		w.ethr.next = func() {
 			for _, ch := range chunks {
-				if _, err := w.pair.A.handleEvents(ch); err != nil {
+				if _, err := w.pair.feed(w.pair.A, ch); err != nil {
 					w.fail("C20", "event", err.Error())
 				}
 			}
